@@ -1,7 +1,7 @@
 ------------------------------- MODULE Validate -------------------------------
 (* Well-formedness of raw instances (C08): the rules of Instance::validate, ParametricInstance::validate
    and of the conversion to the validated typed instance, each with the path to the offending field. *)
-EXTENDS JudgeInst
+EXTENDS Extra
 VarIdSeq(raw) == [ i \in DOMAIN raw.vars |-> raw.vars[i].id ]
 ConIdSeq(raw) == [ i \in DOMAIN raw.constraints |-> raw.constraints[i].id ]
 RemIdSeq(raw) == LET ks == SelectSeq(raw.removed, LAMBDA x : x.c # <<>>) IN [ i \in DOMAIN ks |-> ks[i].c[1].id ]
